@@ -57,6 +57,14 @@ Theorem C13_normalise : forall r a s c,
 Proof. exact mk_inquiry_normalises. Qed.
 Print Assumptions C13_normalise.
 
+(* "equal EXACTLY when the content is the same" is refuted in the other direction: the faithful model leaves out,
+   as jsonpickle does, every dictionary entry under one of jsonpickle's reserved tag keys, so two inquiries that
+   differ only there compare (and hash) equal.  The witness replays on the implementation (known finding
+   jsonpickle-reserved-keys). *)
+Theorem C13_only_if_refuted : exists a b, inq_eq a b = true /\ inq_hash a = inq_hash b /\ ~ inq_content_eq a b.
+Proof. exact reserved_key_collision. Qed.
+Print Assumptions C13_only_if_refuted.
+
 (* non-vacuity: key order at two depths; a one-point mutation is unequal *)
 Definition qa : inquiry :=
   mk_inquiry (VDict [([97%N], VInt 1); ([98%N], VDict [([120%N], VInt 1); ([121%N], VList [VInt 2])])]) VNone (VStr [77%N]) VNone.
